@@ -43,6 +43,7 @@ import (
 
 	"verif/lib/cat"
 	"verif/lib/ev"
+	"verif/lib/topo"
 	"verif/lib/scen"
 	"verif/lib/schedrun"
 )
@@ -1037,6 +1038,8 @@ func main() {
 					}
 				}
 			}
+		case "ring-scene":
+			checkRingScenes(r)
 		case "nesting2d":
 			for axis := 0; axis < 2; axis++ {
 				for _, dir := range []int{1, -1} {
@@ -1138,6 +1141,7 @@ func main() {
 				checkNesting2D(r, j.parent, j.axis, j.dir, j.corner)
 			}
 		})
+		checkRingScenes(r)
 		r.Set("nesting_configurations", len(jobs))
 		r.Sample(mcase{Kind: "nesting", Mesh: "forest [-1 0 0] axis 2 dir -1 corner 3", Pattern: []int{-1, 0, 0}})
 	})
@@ -1219,3 +1223,122 @@ func checkRepairJitterPar(r *ev.Run, name string, base []tri, nOff int) {
 }
 
 var _ = unflat
+
+// ---------------------------------------------------------------- nesting of non-convex components
+
+// checkRingScenes: a shell containing a bar and a ring (torus) around the bar. The ring does not enclose the bar
+// and the bar does not enclose the ring - they are siblings under the shell - although the centre of the ring's
+// bounding box lies inside the bar and either of them may come first along the library's sweep axis. Every
+// orientation of the ring's axis and every placement sign is used. Oracle: winding numbers of the separate
+// components (parity of the number of components around a point), the expected tree, face conservation.
+func checkRingScenes(r *ev.Run) {
+	perm := [][3]int{{0, 1, 2}, {1, 2, 0}, {2, 0, 1}, {0, 2, 1}, {2, 1, 0}, {1, 0, 2}}
+	for pi, pm := range perm {
+		for _, sg := range []float64{1, -1} {
+			mp := func(c c3) c3 {
+				a := c.Array()
+				return model3d.XYZ(sg*a[pm[0]]+0.3, a[pm[1]]-0.2, sg*a[pm[2]]+0.1)
+			}
+			var comps [][]tri
+			add := func(ts [][3]c3) {
+				var out []tri
+				for _, t := range ts {
+					out = append(out, tri{mp(t[0]), mp(t[1]), mp(t[2])})
+				}
+				comps = append(comps, out)
+			}
+			add(cat.Box(model3d.XYZ(-5, -5, -5), model3d.XYZ(5, 5, 5)))       // shell
+			add(cat.Box(model3d.XYZ(-0.6, -0.7, -2), model3d.XYZ(0.7, 0.6, 2))) // bar through the ring (ring axis = z before the permutation)
+			add(cat.Torus(12, 6, 2.5, 0.6))                                     // ring around the bar
+			wantParent := []int{-1, 0, 0}
+			name := fmt.Sprintf("shell, bar and ring (axes %v, sign %g)", pm, sg)
+			c := mcase{Kind: "ring-scene", Mesh: name, Pattern: []int{pi, int(sg)}}
+			viol := func(kind, msg string) { r.Violation(kind, name+": "+msg, c) }
+			r.Eval(1)
+			var all []tri
+			for _, cc := range comps {
+				all = append(all, cc...)
+			}
+			var hs []*model3d.MeshHierarchy
+			if p := ev.Try(func() { hs = model3d.MeshToHierarchy(mesh(all)) }); p != "" {
+				viol("MeshToHierarchy/panic", "panic: "+p)
+				continue
+			}
+			compOf := func(m *model3d.Mesh) int {
+				for i, cc := range comps {
+					if sameFaces(trisOf(m), cc) {
+						return i
+					}
+				}
+				return -1
+			}
+			nodes := 0
+			var walk func(h *model3d.MeshHierarchy, parent int)
+			bad := false
+			walk = func(h *model3d.MeshHierarchy, parent int) {
+				nodes++
+				id := compOf(h.Mesh)
+				if id < 0 {
+					viol("MeshToHierarchy/node", "a node does not hold exactly one of the components")
+					bad = true
+					return
+				}
+				if wantParent[id] != parent {
+					viol("MeshToHierarchy/nesting", fmt.Sprintf("component %d (0 shell, 1 bar, 2 ring) is nested under %d, it belongs under %d", id, parent, wantParent[id]))
+					bad = true
+				}
+				for _, ch := range h.Children {
+					walk(ch, id)
+				}
+			}
+			for _, h := range hs {
+				walk(h, -1)
+			}
+			if bad {
+				continue
+			}
+			if nodes != 3 {
+				viol("MeshToHierarchy/nodes", fmt.Sprintf("%d nodes for 3 components", nodes))
+				continue
+			}
+			tt := make([][][3][3]float64, len(comps))
+			for i, cc := range comps {
+				for _, t := range cc {
+					tt[i] = append(tt[i], [3][3]float64{t[0].Array(), t[1].Array(), t[2].Array()})
+				}
+			}
+			for x := -5.4; x < 5.5; x += 0.53 {
+				for y := -5.4; y < 5.5; y += 0.53 {
+					for z := -5.4; z < 5.5; z += 0.53 {
+						p := mp(model3d.XYZ(x, y, z))
+						cnt, near := 0, false
+						for i := range comps {
+							w := topo.Winding3(tt[i], p.Array())
+							if math.Abs(w-math.Round(w)) > 1e-6 {
+								near = true
+							}
+							if int(math.Round(math.Abs(w)))%2 == 1 {
+								cnt++
+							}
+						}
+						if near {
+							continue
+						}
+						in := false
+						for _, h := range hs {
+							if h.Contains(p) {
+								in = true
+							}
+						}
+						if in != (cnt%2 == 1) {
+							viol("MeshHierarchy/Contains", fmt.Sprintf("point %v is inside %d components, hierarchy says contained=%v", p, cnt, in))
+							x, y = 9, 9
+							break
+						}
+					}
+				}
+			}
+			r.NontrivialKey(name)
+		}
+	}
+}
